@@ -118,3 +118,117 @@ def control_gather_flag():
             kw = kwarg(c, 'return_exceptions')
             return kw is not None and not (isinstance(kw, ast.Constant) and not kw.value)
     return False
+
+
+# ---- verify-before-decode (C04.R2 / C18.R1 / C18.R2) ------------------------
+def _is_verify_test(test, var):
+    """`<hash>(var) != <expected>` / `==`: returns 'ne' / 'eq' / None."""
+    for c in ast.walk(test):
+        if isinstance(c, ast.Compare) and len(c.ops) == 1 and isinstance(c.ops[0], (ast.NotEq, ast.Eq)):
+            sides = [c.left, c.comparators[0]]
+            for s in sides:
+                if isinstance(s, ast.Call) and isinstance(s.func, ast.Attribute) and s.func.attr in ('hash_digest', 'digest') and len(s.args) == 1 and isinstance(s.args[0], ast.Name) and s.args[0].id == var:
+                    return 'ne' if isinstance(c.ops[0], ast.NotEq) else 'eq'
+    return None
+
+
+def snapshot_bytes_verified(ctx, rule_src, rule_store, fi: FuncInfo, sources=('_get_cached', '_download_threadsafe', '_download'), sinks=('_decrypt_snapshot_body', 'deserialize'), stores=('_store_cached',)):
+    """Path-sensitive typestate over the CFG of the snapshot loader: the byte
+    string that reaches the decoder (and the cache store) passed the digest
+    comparison on that path, whatever its source."""
+    from ..cfg import cfg_of, enumerate_paths
+    from .common import self_calls
+
+    cfg = cfg_of(fi.node)
+    sink_stmts, store_stmts = [], []
+    for c in self_calls(fi.node, set(sinks)):
+        if c.args and isinstance(c.args[0], ast.Name):
+            sink_stmts.append((enclosing_stmt(c), c.args[0].id, c))
+    for c in self_calls(fi.node, set(stores)):
+        if len(c.args) >= 2 and isinstance(c.args[1], ast.Name):
+            store_stmts.append((enclosing_stmt(c), c.args[1].id, c))
+    ctx.floor(rule_src, f'decoder call in {fi.qual}', len(sink_stmts))
+    results = []
+    for kind, stmts, rule in (('decode', sink_stmts, rule_src), ('store', store_stmts, rule_store)):
+        for st, var, call in stmts:
+            targets = cfg.nodes_of(st, 'stmt')
+            tid = {id(t) for t in targets}
+            try:
+                paths = enumerate_paths(cfg, cfg.entry, lambda n: id(n) in tid or n.kind in ('exit', 'raise_exit'), max_paths=4000)
+            except OverflowError:
+                from ..loader import AnalysisError
+
+                raise AnalysisError(f'{rule}: too many paths in {fi.qual}')
+            bad = None
+            n_paths = 0
+            for p in paths:
+                if id(p[-1]) not in tid:
+                    continue
+                n_paths += 1
+                state = 'unset'
+                for i, n in enumerate(p):
+                    a = n.ast
+                    if n.kind == 'ok' and isinstance(a, ast.Assign) and any(isinstance(t, ast.Name) and t.id == var for t in a.targets):
+                        if isinstance(a.value, ast.Constant) and a.value.value is None:
+                            state = 'none'
+                        elif any(True for _ in self_calls(a.value, set(sources))):
+                            state = 'unverified'
+                        else:
+                            state = 'unverified'
+                    elif n.kind == 'stmt' and isinstance(a, ast.Assign) and not stmt_has_ok(cfg, a) and any(isinstance(t, ast.Name) and t.id == var for t in a.targets):
+                        if isinstance(a.value, ast.Constant) and a.value.value is None:
+                            state = 'none'
+                        else:
+                            state = 'unverified'
+                    elif n.kind in ('true', 'false') and isinstance(a, ast.If) and _none_test(a.test, var) is not None:
+                        is_none_edge = (_none_test(a.test, var) == 'is') == (n.kind == 'true')
+                        if is_none_edge and state in ('unverified', 'verified'):
+                            state = 'infeasible'
+                            break
+                        if not is_none_edge and state in ('none', 'unset'):
+                            state = 'infeasible'
+                            break
+                    elif n.kind in ('true', 'false') and isinstance(a, ast.If):
+                        v = _is_verify_test(a.test, var)
+                        if v is not None and state == 'unverified':
+                            # only a test that is not weakened by other conjuncts/disjuncts counts
+                            plain = isinstance(a.test, ast.Compare)
+                            if plain and ((v == 'ne' and n.kind == 'false') or (v == 'eq' and n.kind == 'true')):
+                                state = 'verified'
+                if state == 'infeasible':
+                    n_paths -= 1
+                    continue
+                if state != 'verified':
+                    bad = (p, state)
+                    break
+            ctx.count('paths_enumerated', n_paths)
+            site = loc(fi, st)
+            if bad is None and n_paths:
+                ctx.ok(rule, site, f'{fi.qual}: on all {n_paths} paths the bytes handed to {"the decoder" if kind == "decode" else "the cache"} passed the digest comparison (cache and backend source alike)')
+            else:
+                p, state = bad if bad else ([], 'unreachable')
+                ctx.fail(
+                    rule,
+                    f'{func_label(fi)}|{kind}-only-verified-bytes',
+                    site,
+                    f'{fi.qual}: snapshot bytes reach {"the decoder" if kind == "decode" else "the cache store"} without having passed the digest comparison on some path (state: {state}) '
+                    '- a damaged, truncated or substituted object (or cache entry) is used as if it were the snapshot',
+                    cfg.describe_path([n for n in p if n.kind in ('stmt', 'true', 'false', 'handler')][:16], fi.module),
+                )
+            results.append((kind, bad is None))
+    return results
+
+
+def _none_test(test, var):
+    if isinstance(test, ast.Compare) and len(test.ops) == 1 and isinstance(test.left, ast.Name) and test.left.id == var:
+        c = test.comparators[0]
+        if isinstance(c, ast.Constant) and c.value is None:
+            if isinstance(test.ops[0], ast.Is):
+                return 'is'
+            if isinstance(test.ops[0], ast.IsNot):
+                return 'isnot'
+    return None
+
+
+def stmt_has_ok(cfg, stmt):
+    return bool(cfg.nodes_of(stmt, 'ok'))
